@@ -581,9 +581,15 @@ pub struct C03 {
 	first_batch_after_restart: Option<u64>,
 	/// (step, snapshot step) of S's restarts
 	pub restarts: Vec<(u64, u64)>,
+	/// stretches of history (from, to] the running manager knows nothing of: it descends from a snapshot written at
+	/// `from` that was loaded at `to`
+	blind: Vec<(u64, u64)>,
+	snap_blind: BTreeMap<u64, Vec<(u64, u64)>>,
 	closed_s_chans: BTreeSet<ChannelId>,
 	any_chan_closed: bool,
 	next_restart_loses_writes: bool,
+	/// channels S was asked to force-close while it had monitor updates of them in flight: (channel, step)
+	fc_with_inflight: Vec<(ChannelId, u64)>,
 	/// restarts of S at which monitor updates that were written but not completed were lost
 	lossy_restarts: Vec<u64>,
 	start_cap: Option<u64>,
@@ -611,9 +617,12 @@ impl C03 {
 			await_first_batch: false,
 			first_batch_after_restart: None,
 			restarts: vec![],
+			blind: vec![],
+			snap_blind: BTreeMap::new(),
 			closed_s_chans: BTreeSet::new(),
 			any_chan_closed: false,
 			next_restart_loses_writes: false,
+			fc_with_inflight: vec![],
 			lossy_restarts: vec![],
 			start_cap: sim.c03_s_capacity(),
 			stats: C03Stats::default(),
@@ -630,6 +639,7 @@ impl C03 {
 			self.handled_durable = self.handled.clone();
 		}
 		self.snap_handled.insert(step, (self.handled.clone(), self.handled_durable.clone(), sim.w.pending_updates(S)));
+		self.snap_blind.insert(step, self.blind.clone());
 	}
 
 	fn label(&mut self, l: &str) {
@@ -675,7 +685,18 @@ impl C03 {
 			return Ok("send-skipped");
 		}
 		Ok(match op {
-			XOp::Base(op) => apply(sim, spec, op),
+			XOp::Base(op) => {
+				if let Op::ForceClose { chan, by_funder } = op {
+					let ci = pick(*chan, sim.chans.len());
+					let c = &sim.chans[ci];
+					let me = if *by_funder { c.a } else { c.b };
+					if me == S && sim.w.pending_updates(S).iter().any(|(pc, _)| *pc == c.id) && sim.chan_details(S, ci).is_some() {
+						let step = sim.log.last().map(|(s, _)| *s).unwrap_or(0);
+						self.fc_with_inflight.push((c.id, step));
+					}
+				}
+				apply(sim, spec, op)
+			},
 			XOp::SendRoute { route, amt, tweak } => {
 				let routes = s_routes(spec.topo);
 				let chans = routes[pick(*route, routes.len())].clone();
@@ -933,6 +954,31 @@ impl C03 {
 		self.restarts.last().map(|r| r.1)
 	}
 
+	/// Exact shape of a listed finding: S was asked (API) to force-close a channel of one of these parts while
+	/// monitor updates of that channel were still in flight, the commitment transaction it broadcast then is the
+	/// one that confirmed, and a later restart of S lost written-but-incomplete monitor updates (the restored
+	/// monitor has no data for that transaction).
+	fn broadcast_before_durable(&self, sim: &Sim, parts: &[((ChannelId, usize, u64), Htlc)]) -> bool {
+		for (k, _) in parts.iter() {
+			let Some((_, fc_step)) = self.fc_with_inflight.iter().find(|(c, _)| *c == k.0) else { continue };
+			let Some(lossy) = self.lossy_restarts.iter().find(|r| **r > *fc_step) else { continue };
+			let Some(c) = sim.chans.iter().find(|c| c.id == k.0) else { continue };
+			let funding = c.funding_tx.compute_txid();
+			let confirmed_spend = sim.chain.confirmed.values().find(|(tx, _)| tx.input.iter().any(|i| i.previous_output.txid == funding)).map(|(tx, _)| tx.compute_txid());
+			let Some(spend) = confirmed_spend else { continue };
+			let by_s_before = sim.log.iter().any(|(st, e)| *st > *fc_step && *st < *lossy && matches!(e, SEvent::Broadcast { node: S, tx, .. } if tx.compute_txid() == spend));
+			if by_s_before {
+				return true;
+			}
+		}
+		false
+	}
+
+	/// the running manager descends from a snapshot that was written before `step` and loaded after it
+	fn is_blind(&self, step: u64) -> bool {
+		self.blind.iter().any(|(a, b)| *a < step && step <= *b)
+	}
+
 	/// Consume the new part of the simulator log and evaluate every event-level oracle.
 	pub fn step(&mut self, sim: &Sim) -> CaseResult {
 		if self.co_dead.is_none() {
@@ -1052,11 +1098,16 @@ impl C03 {
 						}
 					}
 					self.handled_durable = self.handled.clone();
+					if let Some(b) = self.snap_blind.get(&snapshot_step) {
+						self.blind = b.clone();
+					}
+					self.blind.push((snapshot_step, at));
 					self.await_first_batch = true;
 					self.first_batch_after_restart = None;
 					let mut stale = false;
+					let blind = self.blind.clone();
 					for m in self.meta.iter_mut() {
-						if m.api_ok && m.send_step > snapshot_step {
+						if m.api_ok && blind.iter().any(|(a, b)| *a < m.send_step && m.send_step <= *b) {
 							m.predated = true;
 							stale = true;
 						}
@@ -1198,10 +1249,10 @@ impl C03 {
 				}
 				if let Some(sent) = m.sent_obs.first() {
 					// documented limitation (listed finding): the manager snapshot used by the last restart predates PaymentSent
-					let stale = last_snap.map(|s| s < *sent).unwrap_or(false);
+					let stale = self.is_blind(*sent);
 					return Err(fail(
 						"contradictory-terminal-events",
-						format!("PaymentFailed ({:?}) for pay#{} at step {} after PaymentSent at step {} (last restart used the manager snapshot of step {:?})", reason, i, at, sent, last_snap),
+						format!("PaymentFailed ({:?}) for pay#{} at step {} after PaymentSent at step {} (restarts of S (step, snapshot step): {:?}; the running manager descends from a snapshot older than the PaymentSent: {})", reason, i, at, sent, self.restarts, stale),
 					)
 					.with_key(if stale { "contradictory-terminal-events/failed-after-sent/manager-snapshot-predates-sent" } else { "contradictory-terminal-events/failed-after-sent" }));
 				}
@@ -1234,10 +1285,7 @@ impl C03 {
 					fulfil_step = m.onchain_claim_step;
 				}
 				if let Some(how) = settled {
-					let stale = match (last_snap, fulfil_step) {
-						(Some(s), Some(f)) => s < f,
-						_ => false,
-					};
+					let stale = fulfil_step.map(|f| self.is_blind(f)).unwrap_or(false);
 					return Err(fail(
 						"payment-failed-untruthful",
 						format!("PaymentFailed ({:?}) for pay#{} ({:?}) at step {} although a part was settled: {} (last restart used the manager snapshot of step {:?}, the fulfil reached S at step {:?})", reason, i, m.kind, at, how, last_snap, fulfil_step),
@@ -1247,18 +1295,11 @@ impl C03 {
 				// ... and none is pending
 				let (ids, hashes) = sim.c03_inflight();
 				if ids.contains(&m.id.0) || hashes.contains(&m.hash) {
-					// listed finding: the manager snapshot used by the last restart was written while the HTLC still sat
-					// in the holding cell (before its update_add_htlc left), the monitor meanwhile committed it
-					let newest_part = self.parts_of(&m.hash).iter().map(|(_, h)| h.emit_step).max();
-					let stale = match (last_snap, newest_part) {
-						(Some(s), Some(e)) => s < e && s > m.send_step,
-						_ => false,
-					};
 					return Err(fail(
 						"payment-failed-untruthful",
-						format!("PaymentFailed ({:?}) for pay#{} ({:?}) at step {} while S still has an HTLC of it in flight (by id: {}, by hash: {}; last restart snapshot {:?}, payment sent at {}, newest update_add_htlc at {:?})", reason, i, m.kind, at, ids.contains(&m.id.0), hashes.contains(&m.hash), last_snap, m.send_step, newest_part),
+						format!("PaymentFailed ({:?}) for pay#{} ({:?}) at step {} while S still has an HTLC of it in flight (by id: {}, by hash: {}; restarts {:?}, payment sent at {})", reason, i, m.kind, at, ids.contains(&m.id.0), hashes.contains(&m.hash), self.restarts, m.send_step),
 					)
-					.with_key(if stale { "payment-failed-while-htlc-live/manager-snapshot-predates-commitment" } else { "payment-failed-untruthful/part-pending" }));
+					.with_key("payment-failed-untruthful/part-pending"));
 				}
 				let m = &mut self.meta[i];
 				m.failed_obs.push(at);
@@ -1373,10 +1414,7 @@ impl C03 {
 			// (b) a settled part => PaymentSent by now
 			if any_settled && m.sent_obs.is_empty() {
 				let fulfil_step = parts.iter().filter_map(|(_, h)| h.fulfill_delivered).min().or(m.onchain_claim_step);
-				let stale = match (self.last_restart_snapshot(), fulfil_step) {
-					(Some(s), Some(f)) => s < f,
-					_ => false,
-				};
+				let stale = fulfil_step.map(|f| self.is_blind(f)).unwrap_or(false);
 				return Err(fail(
 					"settled-but-never-sent",
 					format!("a part of pay#{} ({:?}) was settled (fulfil reached S at step {:?}, on-chain claim {:?}) but S never reported PaymentSent (PaymentFailed at {:?}, listed: {:?}, last restart snapshot {:?})", i, m.kind, fulfil_step, m.onchain_claim_step, m.failed_obs, recent.get(&m.id.0), self.last_restart_snapshot()),
@@ -1402,7 +1440,7 @@ impl C03 {
 					)
 					// exact signature of a suspected defect: a crash lost monitor updates that were still in flight after
 					// the payment was sent (e.g. S had already broadcast the commitment transaction they describe)
-					.with_key(format!("no-terminal-event/{}{}", recent.get(&m.id.0).unwrap_or(&"unlisted"), if self.lossy_restarts.iter().any(|r| *r > m.send_step) { "/restart-lost-inflight-monitor-updates" } else { "" })));
+					.with_key(format!("no-terminal-event/{}{}", recent.get(&m.id.0).unwrap_or(&"unlisted"), if self.broadcast_before_durable(sim, &parts) { "/restart-lost-inflight-monitor-updates" } else { "" })));
 				}
 			}
 			if !m.api_ok && terminal && !m.api.contains("Ok(") {
